@@ -5,6 +5,7 @@ import ast
 from typing import Dict, List, Set
 
 from .. import cfg as cfgmod
+from .. import pat
 from ..index import AnalysisError, dotted_name, unparse
 
 EXPLANATION = (
@@ -296,7 +297,8 @@ def _s4(program, res):
                     if "kop_expr" in body and "'and'" in body:
                         res.ok("C13-S4", "a chained comparison becomes the conjunction of its adjacent comparisons before the left fold is reached")
                         # adjacent pairs: operands[i] op operands[i + 1]
-                        if "operands[i]" in body and "operands[i + 1]" in body:
+                        if any(e1["_OPS"] == e2["_OPS"] and e1["_I"] == e2["_I"] for (_a, e1) in pat.find("_OPS[_I]", n.stmt)
+                               for (_b, e2) in pat.find("_OPS[_I + 1]", n.stmt)):
                             res.ok("C13-S4", "conjunction pairs operand i with operand i+1")
                         else:
                             res.fail_at("C13-S4", w, "chain-pairs", "the conjunction does not pair adjacent operands", n.stmt)
@@ -308,7 +310,8 @@ def _s4(program, res):
                         "`a < x < y` parses as `(a < x) < y`, Python means `(a < x) and (x < y)`")
     # and/or n-ary, not -> == False
     txt = unparse(fn)
-    if "kop_expr(op_name, children, inline=True, method=False)" in txt and "op_name = 'or'" in txt and "op_name = 'and'" in txt:
+    kops = [e for (_n, e) in pat.find("data_algebra.expr_rep.kop_expr(_OPN, _CH, inline=True, method=False)", fn)]
+    if kops and any(pat.find(f"{e['_OPN']} = 'or'", fn) and pat.find(f"{e['_OPN']} = 'and'", fn) for e in kops):
         res.ok("C13-S4", "and/or chains become one n-ary expression in source order")
     else:
         res.fail_at("C13-S4", w, "boolean-connectives", "and/or test chains are no longer built as n-ary kop_expr('and'|'or', children)")
@@ -321,7 +324,9 @@ def _s4(program, res):
     fac = [n for n in ast.walk(fn) if isinstance(n, ast.If) and unparse(n.test) == "r_op.data == 'factor'"]
     if fac:
         body = unparse(fac[0])
-        if "right = _r_walk_lark_tree(r_op.children[1])" in body and "getattr(right, op_name)()" in body and "str(r_op.children[0])" in body:
+        rights = [e for (_n, e) in pat.find("_R = _r_walk_lark_tree(r_op.children[1])", fac[0])]
+        applied = [e for (_n, e) in pat.find("getattr(_R, _OPN)()", fac[0])]
+        if rights and any(a["_R"] == rights[0]["_R"] for a in applied) and "str(r_op.children[0])" in body:
             res.ok("C13-S4", "unary operators: token is child 0, applied to operand child 1")
         else:
             res.fail_at("C13-S4", w, "unary-shape", "the factor branch no longer applies the operator token (child 0) to the operand (child 1)", fac[0])
@@ -339,7 +344,9 @@ def _s4(program, res):
     # n-ary + and * only when all operators are the same
     same = [n for n in ast.walk(branch) if isinstance(n, ast.If) and "len(set(ops_seen)) == 1" in unparse(n.test)]
     if same and "arith_expr" in unparse(same[0].test):
-        inner_if = [n for n in ast.walk(same[0]) if isinstance(n, ast.If) and "op_name in" in unparse(n.test)]
+        inner_if = [n for n in ast.walk(same[0]) if isinstance(n, ast.If) and isinstance(n.test, ast.Compare) and len(n.test.ops) == 1
+                    and isinstance(n.test.ops[0], ast.In) and isinstance(n.test.left, ast.Name)
+                    and isinstance(n.test.comparators[0], (ast.List, ast.Set, ast.Tuple))]
         if inner_if and set(ast.literal_eval(inner_if[0].test.comparators[0])) <= {"+", "*"}:
             res.ok("C13-S4", "only repeated + or * (associative) are collected into one n-ary expression")
         else:
